@@ -91,7 +91,7 @@ impl Rational {
         let rational = if self.rational.denom().is_one() {
             self.rational.clone()
         } else {
-            self.rational.trunc()
+            self.rational.floor()
         };
 
         Self { rational }
@@ -102,7 +102,7 @@ impl Rational {
         let rational = if self.rational.denom().is_one() {
             self.rational.clone()
         } else {
-            (self.rational.clone() + BigRational::one()).trunc()
+            self.rational.ceil()
         };
 
         Self { rational }
